@@ -51,42 +51,7 @@ def strings_only_diff(a, b):
     return a == b
 
 
-def has_negated_class(spec):
-    """Does the (shown) spec contain a str pattern with a negated class / [^x]?"""
-    import re
-    if isinstance(spec, dict):
-        p = spec.get("pattern")
-        if isinstance(p, str):
-            try:
-                import re._parser as sre
-                from re._constants import IN, NEGATE, NOT_LITERAL
-
-                def walk(items):
-                    for op, av in items:
-                        if op is NOT_LITERAL:
-                            return True
-                        if op is IN and av and av[0][0] is NEGATE:
-                            return True
-                        if isinstance(av, (list, tuple)):
-                            for x in av:
-                                if hasattr(x, "data") and walk(x.data):
-                                    return True
-                                if isinstance(x, (list, tuple)):
-                                    for y in x:
-                                        if hasattr(y, "data") and walk(y.data):
-                                            return True
-                        if hasattr(av, "data") and walk(av.data):
-                            return True
-                    return False
-                if walk(sre.parse(p).data):
-                    return True
-            except Exception:
-                if "[^" in p:
-                    return True
-        return any(has_negated_class(v) for v in spec.values())
-    if isinstance(spec, list):
-        return any(has_negated_class(v) for v in spec)
-    return False
+from ..c17child import has_negated_class  # noqa: E402,F401
 
 
 def run_shard(ctx):
@@ -134,7 +99,7 @@ def run_shard(ctx):
                 # character it maps to, so a divergence at one position cannot cause one at another
                 for i in range(n):
                     if r["pass1"][i] != r0["pass1"][i]:
-                        neg = has_negated_class(r0["specs"][i])
+                        neg = bool(r0["negated"][i])
                         ctx.violation("configurations_differ", {
                             "configs": [configs[0], cfg], "schema": r0["reprs"][i][:300], "position": i,
                             "value_a": r0["pass1"][i], "value_b": r["pass1"][i],
